@@ -377,7 +377,7 @@ func lastName(n string) string {
 // by a call (PopEDNS0).
 func msgSectionField(fa *ssa.FieldAddr) (core.FieldRef, bool) {
 	r := core.FieldAddrRef(fa)
-	if r.Struct == nil || r.Struct.Obj().Pkg() == nil || r.Struct.Obj().Pkg().Path() != core.PkgPath("internal/dnsmsg") || r.Struct.Obj().Name() != "Msg" {
+	if r.Struct == nil || r.Struct.Obj().Pkg() == nil || r.Struct.Obj().Pkg().Path() != core.PkgPath("internal/dnsmsg") || core.StructName(r.Struct) != "Msg" {
 		return r, false
 	}
 	st := r.Struct.Underlying().(*types.Struct)
